@@ -44,7 +44,7 @@ READY = ['core', 'eslice', 'op_eval', 'cfi_lookup', 'cfi_uctx', 'cfi_uctx_link',
 # batch -> batches whose items it re-verifies completely (so the smaller one need not run as well)
 SUPERSEDES = {'wline_prog': ['wline_insn'], 'op_eval': ['op'], 'dwarf_ranges': ['lists'], 'cfi_uctx_link': ['cfi_unwind'], 'line_hdr': ['line'], 'cfi_lookup': ['cfi_entries']}
 # tags that only quote another property's vocabulary inside a batch (not obligations of that property)
-IGNORE = {('line_hdr', 'C03'), ('wline', 'C12'), ('filter', 'C01'), ('filter', 'C07'), ('wunit', 'C03'), ('wunit', 'C15'), ('conv', 'C05'), ('index', 'C09'), ('macros', 'C10'), ('names', 'C10'), ('wunit_layout', 'C16'), ('bases', 'C10'), ('wabbrev', 'C02'), ('filter_reserve', 'C02'), ('conv_attrs', 'C19'), ('conv_expr', 'C07'), ('dwp', 'C10'), ('wunit_table', 'C15'), ('conv_line', 'C01'), ('conv_line', 'C04'), ('conv_line', 'C10'), ('conv_line', 'C20'), ('conv_line', 'C03'), ('conv_line', 'C09')}
+IGNORE = {('line_hdr', 'C03'), ('wline', 'C12'), ('filter', 'C01'), ('filter', 'C07'), ('wunit', 'C03'), ('wunit', 'C15'), ('conv', 'C05'), ('index', 'C09'), ('macros', 'C10'), ('names', 'C10'), ('wunit_layout', 'C16'), ('bases', 'C10'), ('wabbrev', 'C02'), ('filter_reserve', 'C02'), ('conv_attrs', 'C19'), ('conv_expr', 'C07'), ('dwp', 'C10'), ('wunit_table', 'C15'), ('conv_line', 'C04'), ('conv_line', 'C10'), ('conv_line', 'C20'), ('conv_line', 'C03'), ('conv_line', 'C09')}
 
 ND = {
     'C01': 'entry points not extracted (MacroString::string, Dwarf/DwarfSections loaders, DwarfPackage::load, ConvertUnit::convert*), stack depth '
